@@ -175,6 +175,101 @@ def f13_signature(case):
     return False
 
 
+def kinds(case, t):
+    """(parse type, start kind, end kind, indicator kind) of a node as Expression::parse computes them:
+    None for EXPRESSION_NO_UTILITY, else ('c'|'v', 'c'|'v', 'c'|'v') plus constant start/end when known."""
+    k = t[0]
+    avail = {p for p, _, a in case["pt"] if a}
+    if k == "C":
+        if case["now"] > t[4] or not [p for p in t[2] if p in avail]:
+            return None
+        return ("c", "c", "v", t[4], t[4] + t[5])
+    if k == "A":
+        return ("c", "c", "c", t[3], t[3] + t[4])
+    if k == "MIN":
+        ks = [kinds(case, c) for c in t[2]]
+        if any(x is None for x in ks):
+            return None
+        return ("v", "v", "v" if any(x[2] == "v" for x in ks) else "c", None, None)
+    if k == "MAX":
+        return ("v", "v", "v", None, None)
+    if k == "LT":
+        x, y = kinds(case, t[2]), kinds(case, t[3])
+        if x is None or y is None:
+            return None
+        if x[1] == "c" and y[0] == "c":
+            return (x[0], y[1], "c", x[3], y[4]) if x[4] <= y[3] else None
+        return (x[0], y[1], "v", x[3], y[4])
+    if k == "SC":
+        return kinds(case, t[4])
+    return ("c", "c", "c", 0, 2 ** 32 - 1)
+
+
+def has_choose(t):
+    return any(l[0] == "C" for l in leaves(t))
+
+
+def flt_signature(case):
+    """INPUT predicate of finding F14: a LessThan that is lowered through solver variables has a child whose
+    indicator is the constant 1 (a trivially satisfied sub-expression) that contains Choose leaves, or a Min mixes
+    constant- and variable-indicator children (same leak): the parent's indicator then does not gate that child's
+    utility and placements."""
+    for t in nodes(case["tree"]):
+        if t[0] == "LT":
+            me = kinds(case, t)
+            if me is not None and me[2] == "v":
+                for c in (t[2], t[3]):
+                    kc = kinds(case, c)
+                    if kc is not None and kc[2] == "c" and has_choose(c):
+                        return True
+        if t[0] == "MIN":
+            me = kinds(case, t)
+            if me is not None and me[2] == "v":
+                for c in t[2]:
+                    kc = kinds(case, c)
+                    if kc is not None and kc[2] == "c" and has_choose(c):
+                        return True
+    return False
+
+
+def choose_ids(t):
+    return {l[1] for l in leaves(t) if l[0] == "C"}
+
+
+def py_lt_violation(case, pls):
+    for t in nodes(case["tree"]):
+        if t[0] == "LT":
+            a, b = choose_ids(t[2]), choose_ids(t[3])
+            for p1 in pls:
+                for p2 in pls:
+                    if p1[0] in a and p2[0] in b and p1[2] > p2[1]:
+                        return {"lessthan": t[1], "first": p1, "second": p2}
+    return None
+
+
+def py_structure_violation(case, pls):
+    """Pure-Python fallback of structure_okb."""
+    avail = {p: q for p, q, a in case["pt"] if a}
+    ch = {l[1]: l for l in leaves(case["tree"]) if l[0] == "C"}
+    names = [p[0] for p in pls]
+    if len(set(names)) != len(names):
+        return {"duplicate placement names": names}
+    for pl in pls:
+        c = ch.get(pl[0])
+        if c is None:
+            return {"placement without a Choose": pl}
+        ok = (pl[1] == c[4] and pl[2] == c[4] + c[5] and sum(a[2] for a in pl[3]) == c[3] and case["now"] <= c[4]
+              and all(a[0] in c[2] and a[0] in avail and a[1] == c[4] and 0 < a[2] <= avail[a[0]] for a in pl[3]))
+        if not ok:
+            return {"placement differs from its Choose": pl, "choose": c}
+    for t in nodes(case["tree"]):
+        if t[0] == "MAX":
+            mine = {p[0] for p in pls if p[0] in {c[1] for c in t[2]}}
+            if len(mine) > 1:
+                return {"max": t[1], "children placed": sorted(mine)}
+    return None
+
+
 # --------------------------------------------------------------------------- rendering
 def g_expr(t):
     k = t[0]
@@ -445,9 +540,16 @@ def g_placements(pls):
 
 
 def run(ctx):
+    import time
+    t0 = time.time()
+    phases = ctx.cov.setdefault("phases_s", {})
+
+    def mark(name):
+        phases[name] = round(time.time() - t0, 1)
     ctx.fingerprint(SRC)
     ctx.level = "proof"
     built = ctx.build("C20", deps=["Model/Strl.v"])
+    mark("coq_build")
     quick = ctx.tier == "quick"
     n_cases = 500 if quick else 5000
     n_sat = 4 if quick else 8
@@ -458,6 +560,7 @@ def run(ctx):
         ctx.broken.append({"kind": "tie", "name": "strl-driver-build", "detail": str(e)[-1500:]})
         return
 
+    mark("driver_build")
     gen = Gen(ctx.rng)
     cases = []
     for i in range(n_cases):
@@ -478,7 +581,7 @@ def run(ctx):
         return
     seen = set()
     nontriv = 0
-    dist = {"aligned": 0, "free": 0, "error": 0, "cpp_errors": 0, "f13_signature": 0}
+    dist = {"aligned": 0, "free": 0, "error": 0, "cpp_errors": 0, "f13_signature": 0, "f14_signature": 0}
     comp_cases = []
     canon_fail = None
     for c, d in zip(cases, dumps):
@@ -486,6 +589,8 @@ def run(ctx):
         dist["cpp_errors"] += d["err"] is not None
         c["f13"] = f13_signature(c)
         dist["f13_signature"] += c["f13"]
+        c["f14"] = flt_signature(c) if d["err"] is None else False
+        dist["f14_signature"] += c["f14"]
         try:
             exp = canon_model(d)
         except CanonError as e:
@@ -515,6 +620,7 @@ def run(ctx):
         model_ok = False
         ctx.broken.append({"kind": "correspondence", "name": "S-strl-compile", "detail": str(e)[-800:]})
 
+    mark("compile_stream")
     # ---- stage 2: assignments, read-back, monitors
     work = []          # (case, dump, assignments, n_sat)
     for c, d in zip(cases, dumps):
@@ -531,6 +637,7 @@ def run(ctx):
     except DriverError as e:
         ctx.broken.append({"kind": "tie", "name": "strl-driver-run2", "detail": str(e)[-1500:]})
         return
+    mark("sampling")
     pop_cases = []
     mon = []           # (case, dump, vals, placements) for satisfying assignments
     n_satisfying = 0
@@ -563,43 +670,63 @@ def run(ctx):
         model_ok = False
         ctx.broken.append({"kind": "correspondence", "name": "S-strl-populate", "detail": str(e)[-800:]})
 
+    mark("populate_stream")
     # ---- monitors on the implementation's own placements (satisfying assignments only)
     ctx.rules.append("monitors: for every sampled assignment that satisfies the C++ model (z3, up to %d per tree) the placements "
                      "returned by the real populateResults are checked by the Gallina monitors capacity_okb (trees outside "
                      "the F13 input signature), placements_exactb, structure_okb and utility = objective" % n_sat)
     run_monitors(ctx, mon, model_ok)
+    mark("monitors")
 
-    # ---- known finding F13: replay the witness on the implementation
+    # ---- known findings: replay the witnesses on the implementation
     replay_f13(ctx, exe)
+    replay_f14(ctx, exe)
 
 
 def run_monitors(ctx, mon, model_ok):
-    cap = [(c, pls, exp) for c, d, vals, pls, exp in mon if not c["f13"]]
+    def asg_of(d, vals):
+        return [[v[0], x] for v, x in zip(d["vars"], vals)]
+
     # utility = objective (no model needed)
     for c, d, vals, pls, exp in mon:
         if exp[2] != exp[3]:
-            ctx.violation("utility", {"stream": "monitor utility=objective", "case": c,
-                                      "assignment": [[v[0], x] for v, x in zip(d["vars"], vals)],
+            ctx.violation("utility", {"stream": "monitor utility=objective", "case": c, "assignment": asg_of(d, vals),
                                       "objective": exp[2], "utility": exp[3], "driver_input": driver_text(c, [vals]),
                                       "what": "the utility reported by populateResults differs from the model objective"})
             break
-    bad = None
-    if model_ok:
-        try:
-            texts = ["(%s, %s, %s)" % (g_ptab(c["pt"]), g_expr(c["tree"]), g_placements(pls)) for c, pls, _ in cap]
-            bad = ctx.monitor_stream("S-strl-capacity", HEADER, "ptab * expr * list placement",
-                                     "(fun x => capacity_okb (fst (fst x)) (snd (fst x)) (snd x))", texts)
-        except core.ModelEvalError as e:
-            ctx.broken.append({"kind": "monitor", "name": "capacity_okb", "detail": str(e)[-600:]})
-    if bad is None:     # fallback: the same check in Python
-        bad = [i for i, (c, pls, _) in enumerate(cap) if py_capacity_violation(c, pls)]
-    for b in bad[:3]:
-        c, pls, exp = cap[b]
-        ctx.violation("capacity%d" % b, {"stream": "monitor capacity", "case": c, "placements": pls,
-                                          "over_subscription[partition,time,usage,quantity]": py_capacity_violation(c, pls),
-                                          "driver_input": driver_text(c, []),
-                                          "what": "a satisfying assignment of the C++ model reads back as placements that "
-                                                  "over-subscribe a partition"})
+
+    def apply(name, subset, in_type, fn, render, fallback, what):
+        bad = None
+        if model_ok:
+            try:
+                bad = ctx.monitor_stream(name, HEADER, in_type, fn, [render(m) for m in subset])
+            except core.ModelEvalError as e:
+                ctx.broken.append({"kind": "monitor", "name": name, "detail": str(e)[-600:]})
+        if bad is None:     # the Coq model does not evaluate: the same check in Python
+            bad = [i for i, m in enumerate(subset) if fallback(m[0], m[3])]
+        for b in bad[:3]:
+            c, d, vals, pls, exp = subset[b]
+            ctx.violation("%s%d" % (name.split("-")[-1], b),
+                          {"stream": "monitor " + name, "case": c, "assignment": asg_of(d, vals), "placements": pls,
+                           "violation": fallback(c, pls), "driver_input": driver_text(c, [vals]), "what": what})
+
+    apply("S-strl-capacity", [m for m in mon if not m[0]["f13"]], "ptab * expr * list placement",
+          "(fun x => capacity_okb (fst (fst x)) (snd (fst x)) (snd x))",
+          lambda m: "(%s, %s, %s)" % (g_ptab(m[0]["pt"]), g_expr(m[0]["tree"]), g_placements(m[3])),
+          py_capacity_violation,
+          "a satisfying assignment of the C++ model reads back as placements that over-subscribe a partition "
+          "[partition, time, usage, quantity]")
+    apply("S-strl-structure", mon, "ptab * Z * expr * list placement",
+          "(fun x => structure_okb (fst (fst (fst x))) (snd (fst (fst x))) (snd (fst x)) (snd x))",
+          lambda m: "(%s, %s, %s, %s)" % (g_ptab(m[0]["pt"]), gz(m[0]["now"]), g_expr(m[0]["tree"]), g_placements(m[3])),
+          py_structure_violation,
+          "a placement read back from a satisfying assignment is not the exact image of a Choose leaf (name, start, "
+          "duration, amount, partitions), or two children of one Max are placed")
+    apply("S-strl-lessthan", [m for m in mon if not m[0]["f14"]], "expr * list placement",
+          "(fun x => lt_okb (fst x) (snd x))",
+          lambda m: "(%s, %s)" % (g_expr(m[0]["tree"]), g_placements(m[3])),
+          py_lt_violation,
+          "a placement below the first child of a LessThan ends after a placement below its second child starts")
 
 
 def replay_f13(ctx, exe):
@@ -618,3 +745,32 @@ def replay_f13(ctx, exe):
         ctx.known("F13", "capacity rows are keyed by startTime + k*granularity per expression (CapacityConstraint.cpp:215-235): "
                          "Choose[0,4) and Choose[2,6) on a partition of quantity 1 with granularity 4 never share a row; "
                          "the all-ones assignment satisfies the model and uses %d > %d units at time %d" % (v[2], v[3], v[1]))
+
+
+F14_WITNESS = {"pt": [[1, 1, 1]], "now": 0, "g": 1, "kind": "witness",
+               "tree": ["OBJ", 11, [["LT", 10, ["LT", 3, ["C", 1, [1], 1, 4, 2, 1], ["C", 2, [1], 1, 6, 2, 1]],
+                                     ["LT", 9, ["MAX", 5, [["C", 4, [1], 1, 8, 2, 1]]],
+                                      ["LT", 8, ["C", 6, [1], 1, 0, 2, 1], ["C", 7, [1], 1, 2, 2, 1]]]]]]}
+F14_ASSIGNMENT = {"e1_placed_at_4_for_": 1, "e1_using_partition_1_at_4": 1, "e2_placed_at_6_for_": 1,
+                  "e2_using_partition_1_at_6": 1, "e6_placed_at_0_for_": 1, "e6_using_partition_1_at_0": 1,
+                  "e7_placed_at_2_for_": 1, "e7_using_partition_1_at_2": 1, "e5_max_start_time": 8}
+
+
+def replay_f14(ctx, exe):
+    c = F14_WITNESS
+    try:
+        d = run_driver(exe, driver_text(c, []), 1)[0]
+        if d["err"] is not None:
+            return
+        vals = [F14_ASSIGNMENT.get(v[0], 0) for v in d["vars"]]
+        o = run_driver(exe, driver_text(c, [vals]), 1)[0]
+        exp = canon_solution(d, o["sols"][0], vals)
+    except (DriverError, CanonError, KeyError, IndexError):
+        return
+    v = py_lt_violation(c, exp[6])
+    if exp[1] == 1 and v and flt_signature(c):
+        ctx.known("F14", "an unsatisfied LessThan still passes up the utility and placements of children whose indicator is "
+                         "the constant 1 (Expression.cpp:1832-1835,1966-1969): LessThan(LessThan(A[4,6),B[6,8)), "
+                         "LessThan(Max[C[8,10)], LessThan(A'[0,2),B'[2,4)))) has a solution of utility %d whose read-back "
+                         "places %s (first child, ends %d) after %s (second child, starts %d)"
+                  % (exp[3], "e%d" % v["first"][0], v["first"][2], "e%d" % v["second"][0], v["second"][1]))
